@@ -78,6 +78,8 @@ def exec_line(ln):
         return payload(int(w[1]), int(w[2]))
     if w[0] == u'nop':
         return u''
+    if w[0] == u'same':
+        return ln + u'\n'          # prints exactly its own text (like a literal typed at an interpreter prompt)
     return u'error: %s\n' % ln
 
 
@@ -89,8 +91,10 @@ def gen_cmd(rng):
         return {'cmd': u'out %d %d' % (n, s)}
     if r < 0.5:
         return {'cmd': u'outn %d %d' % (n, s)}
-    if r < 0.6:
+    if r < 0.55:
         return {'cmd': u'nop'}
+    if r < 0.6:
+        return {'cmd': u'same %d' % rng.randrange(1000)}
     if r < 0.7:
         return {'cmd': u'slow %d %d' % (min(n, 3000), s)}
     if r < 0.85:
